@@ -106,6 +106,7 @@ def run_fuse(src_path, ref_path, out_path, model='gain-blk-offset', kernel_shape
                 res.param_masks = ds.read_masks().astype(bool)
                 res.param_profile = dict(ds.profile)
                 res.param_tags = ds.tags()
+                res.param_band_tags = [ds.tags(i + 1) for i in range(ds.count)]
                 res.param_descriptions = ds.descriptions
     res.corr_path, res.param_path = out_path, param_path
     res.max_block_mem, res.model_config = max_block_mem, dict(model_config or {})
